@@ -62,11 +62,11 @@ pub fn chains(scn: &Scenario, eof: &[bool]) -> Vec<Vec<Ev>> {
 
 fn check(scn: &Scenario, rep: &mut Report) {
     let world = scn.world();
-    let res = vnet::catch(|| run_world(&world));
+    let res = run_world_caught(world.clone());
     rep.eval(scn.hash());
     let out = match res {
         Err(p) => {
-            rep.violation("C08/panic-in-server", format!("panic: {p}; {}", scn.describe()), scn.to_json("c08"));
+            world_failure(rep, "C08", &p, format!("{}", scn.describe()), scn.to_json("c08"));
             return;
         }
         Ok(o) => o,
@@ -98,7 +98,7 @@ pub fn run(cfg: &Cfg) -> Report {
     if let Some(r) = &cfg.replay {
         let scn = Scenario::from_json(r);
         check(&scn, &mut rep);
-        let out = vnet::catch(|| run_world(&scn.world()));
+        let out = run_world_caught(scn.world());
         rep.notes.push(format!("{out:?}"));
         return rep;
     }
